@@ -37,7 +37,7 @@ import WtfModel.Proofs.ExampleScore
   every context boost ≥ 0 and `finiteScore` keeps non-negative values non-negative (`legacy_score_nonneg`).
 
   "Finite": no content in an ordered field.  On the floats the per-word category factors multiply without
-  bound; since the repair F27 `finiteScore` saturates +Inf at math.MaxFloat64 after the last multiplication
+  bound; since the repair F28 `finiteScore` saturates +Inf at math.MaxFloat64 after the last multiplication
   on each path (model: the parameter `fin`, the IEEE function in the driver).  The `overflow` stream of the
   `legacy2` domain (hundreds of repetitions of "zip"/"tar") checks that on the real code and on the model.
 -/
